@@ -22,7 +22,7 @@ DLC = 'openfilter/filter_runtime/dlcache.py'
 
 
 def in_scope(relpath: str) -> bool:
-    return relpath in (F, DLC, 'openfilter/filter_runtime/zeromq.py', 'openfilter/filter_runtime/mq.py') or relpath.startswith('openfilter/filter_runtime/filters/') or relpath == 'openfilter/observability/lineage.py'
+    return relpath in (F, DLC, 'openfilter/filter_runtime/zeromq.py', 'openfilter/filter_runtime/mq.py', 'openfilter/cli/common.py') or relpath.startswith('openfilter/filter_runtime/filters/') or relpath == 'openfilter/observability/lineage.py'
 
 
 def dlcache_entry(repo):
@@ -51,6 +51,9 @@ def engine(repo) -> TaintEngine:
         for fn, pname, lab in ((files, q.func_params(files)[1], {SRC, URI}), (ensure, q.func_params(ensure)[1], {SRC, URI}), (ensure, q.func_params(ensure)[2], {SRC, URI, NOSCHEME}),
                                (filename, q.func_params(filename)[1], {SRC, URI})):
             e.seed(e.by_node[id(fn)], pname, frozenset(lab))
+        # the FilterConfig records the CLI's wiring function builds from the command line are configuration as well: their sources / outputs are the URIs the filters will be given
+        cmod, pf = repo.find('openfilter/cli/common.py::parse_filters')
+        e.source_records.add(e.by_node[id(pf)].key)
         e.run()
         repo._taint = e
     return e
@@ -275,7 +278,7 @@ def r3(rr, repo):
         # expected token sequence: IN(alpha) REPEAT(IN scheme chars) ':' '/' '/' REPEAT(user) ':' REPEAT(password) '@' REPEAT(host)
         kinds = [('rep' if o in (sc.MAX_REPEAT, sc.MIN_REPEAT) else 'lit:' + chr(a) if o is sc.LITERAL else 'in' if o is sc.IN else str(o)) for o, a, r in toks]
         want = ['in', 'rep', 'lit::', 'lit:/', 'lit:/', 'rep', 'lit::', 'rep', 'lit:@', 'rep']
-        if kinds != want:
+        if kinds not in (want, want[:-1]):     # with or without a host part after the '@'
             rr.unresolved(f'{fname}: pattern structure not recognised: {kinds}', mod, st, key=f'structure|{fname}')
             continue
         scheme_rep, user_rep, pw_rep = toks[1], toks[5], toks[7]
@@ -287,9 +290,26 @@ def r3(rr, repo):
         rr.ob(f'{fname}: the user sub-pattern excludes only ":" and "@"', u_excl == {':', '@'}, mod, st, witness=str(sorted(u_excl) if u_excl is not None else None), key=f'user-class|{fname}')
         rr.ob(f'{fname}: the user part may be empty ("scheme://:password@host" is valid userinfo and still carries a password)', user_rep[1][0] == 0, mod, st,
               witness=f'user repeat minimum {user_rep[1][0]}', key=f'user-may-be-empty|{fname}')
-        host_rep = toks[9]
-        rr.ob(f'{fname}: the host after the "@" may be empty ("scheme://user:password@/path" is valid and still carries the credential)', host_rep[1][0] == 0, mod, st,
-              witness=f'host repeat minimum {host_rep[1][0]}', key=f'host-may-be-empty|{fname}')
+        host_rep = toks[9] if len(toks) > 9 else None
+        rr.ob(f'{fname}: the host after the "@" may be empty ("scheme://user:password@/path" is valid and still carries the credential)', host_rep is None or host_rep[1][0] == 0, mod, st,
+              witness='the match ends at the "@"' if host_rep is None else f'host repeat minimum {host_rep[1][0]}', key=f'host-may-be-empty|{fname}')
+        # what the match consumes after the '@' is not scanned again: if it can run across a list separator it swallows the scheme of the NEXT URI ('rtsp://a:b@cam1,rtsp://c:d@cam2': the host
+        # class eats 'cam1,rtsp:' and '//c:d@cam2' no longer matches) - the match ends at the '@', or its tail stops at ',' ';' '!' like it stops at blanks
+        if host_rep is None:
+            rr.ob(f'{fname}: a match cannot swallow the scheme of the next URI of a list', True, mod, st, witness='the match ends at the "@"', key=f'tail-stops-at-separators|{fname}')
+        else:
+            sub = list(host_rep[1][2])
+            excl, cats = set(), set()
+            ok = len(sub) == 1 and sub[0][0] is sc.IN and list(sub[0][1])[0][0] is sc.NEGATE
+            if ok:
+                for op, v in list(sub[0][1])[1:]:
+                    if op is sc.LITERAL:
+                        excl.add(chr(v))
+                    elif op is sc.CATEGORY:
+                        cats.add(v)
+            stops = ok and {',', ';', '!'} <= excl and sc.CATEGORY_SPACE in cats
+            rr.ob(f'{fname}: a match cannot swallow the scheme of the next URI of a list', stops, mod, st,
+                  witness=f'the part kept after the "@" excludes {sorted(excl)} (+ blanks: {sc.CATEGORY_SPACE in cats}); it has to stop at , ; ! too', key=f'tail-stops-at-separators|{fname}')
         rr.ob(f'{fname}: the password may be empty or of any length', pw_rep[1][0] == 0 and pw_rep[1][1] >= 65535, mod, st, witness=f'password repeat {pw_rep[1][0]}..{pw_rep[1][1]}', key=f'pwd-any-length|{fname}')
         if 'users' in fname:
             rr.ob(f'{fname}: the user name lies in the masked region too', user_rep[2] == 'mask', mod, st, key=f'user-masked|{fname}')
